@@ -139,6 +139,14 @@ Proof.
   intros Ho Hex. eapply (read_frame (S o)); [apply Rread_RreadX, Rread_collect|lia|exact Ho|exact Hex].
 Qed.
 
+Lemma end_of_op_read_frame s o ob :
+  obss s !! o = Some ob -> is_Some (nodes s !! o_observing ob) ->
+  read_result (end_of_op s) o = read_result s o.
+Proof.
+  intros Ho Hex. eapply (read_frame (S o)); [apply Rread_RreadX|lia|exact Ho|exact Hex].
+  unfold end_of_op. etrans; [apply (Rread_collect [])|]. split_and!; try done; intros ? ? H; eexists; (split; [exact H|done]).
+Qed.
+
 (* one step of a history (the op, then the end-of-op collection) *)
 Lemma run_one_read_frame fuel st op s o ob :
   op <> OpStabilise -> expert_op op = false -> op_target op <> Some o ->
@@ -163,8 +171,8 @@ Proof.
     - specialize (HR s0). rewrite E in HR. destruct HR as (_ & Hn & Hob).
       destruct (Hob o ob Ho0) as (ob1 & ? & ? & ?).
       destruct Hex0 as [x Hx]. destruct (Hn _ x Hx) as (x' & ? & _). exists ob1. split_and!; try done. }
-  assert (read_result (collect [] s1).2 o = read_result s o) as H2.
-  { rewrite (collect_read_frame [] s1 o ob1 Ho1) by (rewrite Hoo; done). rewrite H1.
+  assert (read_result (end_of_op s1) o = read_result s o) as H2.
+  { rewrite (end_of_op_read_frame s1 o ob1 Ho1) by (rewrite Hoo; done). rewrite H1.
     eapply (read_frame (S o)); [apply Rread_RreadX; exact R0|lia|exact Ho0|exact Hex0]. }
   destruct r as [[st' out]| |]; simpl; repeat constructor; exact H2.
 Qed.
